@@ -127,35 +127,48 @@ LineEnd(O, p, col) ==
 (* C06: true-column look-ahead.  Stack entries are <<indent, mode, node, aux>>;*)
 (* node = 0 is a pending annotation pop; for a fill, aux = next item.       *)
 
-RECURSIVE Fits(_, _, _, _, _, _, _)
-Fits(c, smart, W, mn, left, col, st) ==
+\* `past`: the look-ahead has moved on to a following line (smart strategy only).  The property lets a forced-break
+\* document break a fitting group only when it "starts later on that SAME line"; on a following line it does not.
+\* The engine's smart predicate nevertheless answers "does not fit" when it meets, on a following deeper line, an
+\* always_break that normalisation could not hoist away (one below annotate / flat_choice / fill / align): that is
+\* the recorded finding C06-forced-break-on-following-line, switched on per case with `rnl` (relax next line).
+\* Stack entries may carry a 5th component: TRUE = reached through annotate / flat_choice / fill / align ("hidden").
+Hid(e) == Len(e) >= 5 /\ e[5]
+
+RECURSIVE Fits(_, _, _, _, _, _, _, _, _)
+Fits(c, smart, W, mn, left, col, st, past, rnl) ==
   IF left < 0 THEN FALSE
   ELSE IF Len(st) = 0 THEN TRUE
   ELSE LET top == st[Len(st)]
            rest == SubSeq(st, 1, Len(st) - 1)
            ind == top[1]
            m == top[2]
-       IN IF top[3] = 0 THEN Fits(c, smart, W, mn, left, col, rest)
+       IN IF top[3] = 0 THEN Fits(c, smart, W, mn, left, col, rest, past, rnl)
           ELSE
           LET nd == Nd(c, top[3])
-              kids(mm, ii, from) ==
-                [j \in 1..(Len(nd.c) + 1 - from) |-> <<ii, mm, nd.c[Len(nd.c) + 1 - j], 1>>]
+              kidsH(mm, ii, from, h) ==
+                [j \in 1..(Len(nd.c) + 1 - from) |-> <<ii, mm, nd.c[Len(nd.c) + 1 - j], 1, h>>]
+              kids(mm, ii, from) == kidsH(mm, ii, from, Hid(top))
           IN \* "a forced-break document starts later on that same line"
-             IF Hoists(c, top[3]) THEN FALSE ELSE
-             CASE nd.k = "nil" -> Fits(c, smart, W, mn, left, col, rest)
-               [] nd.k = "t" -> Fits(c, smart, W, mn, left - nd.n, col + nd.n, rest)
-               [] nd.k \in {"cat", "ann"} -> Fits(c, smart, W, mn, left, col, rest \o kids(m, ind, 1))
-               [] nd.k = "fill" -> Fits(c, smart, W, mn, left, col, rest \o kids(m, ind, top[4]))
-               [] nd.k = "nest" -> Fits(c, smart, W, mn, left, col, rest \o kids(m, ind + nd.a, 1))
-               [] nd.k = "align" -> Fits(c, smart, W, mn, left, col, rest \o kids(m, col + nd.a, 1))
-               [] nd.k = "ab" -> FALSE
+             IF ~past /\ Hoists(c, top[3]) THEN FALSE ELSE
+             CASE nd.k = "nil" -> Fits(c, smart, W, mn, left, col, rest, past, rnl)
+               [] nd.k = "t" -> Fits(c, smart, W, mn, left - nd.n, col + nd.n, rest, past, rnl)
+               [] nd.k = "cat" -> Fits(c, smart, W, mn, left, col, rest \o kids(m, ind, 1), past, rnl)
+               [] nd.k = "ann" -> Fits(c, smart, W, mn, left, col, rest \o kidsH(m, ind, 1, TRUE), past, rnl)
+               [] nd.k = "fill" -> Fits(c, smart, W, mn, left, col, rest \o kidsH(m, ind, top[4], TRUE), past, rnl)
+               [] nd.k = "nest" -> Fits(c, smart, W, mn, left, col, rest \o kids(m, ind + nd.a, 1), past, rnl)
+               [] nd.k = "align" -> Fits(c, smart, W, mn, left, col, rest \o kidsH(m, col + nd.a, 1, TRUE), past, rnl)
+               [] nd.k = "ab" ->
+                    IF ~past THEN FALSE
+                    ELSE IF Hid(top) /\ rnl THEN FALSE
+                    ELSE Fits(c, smart, W, mn, left, col, rest \o kids(BREAK, ind, 1), past, rnl)
                [] nd.k = "ctx" -> FALSE
                [] nd.k = "hl" -> IF smart /\ ind > mn
-                                 THEN Fits(c, smart, W, mn, W - ind, ind, rest)
+                                 THEN Fits(c, smart, W, mn, W - ind, ind, rest, TRUE, rnl)
                                  ELSE TRUE
                [] nd.k = "fc" -> Fits(c, smart, W, mn, left, col,
-                                      Append(rest, <<ind, m, IF m = FLAT THEN nd.c[2] ELSE nd.c[1], 1>>))
-               [] nd.k = "grp" -> Fits(c, smart, W, mn, left, col, rest \o kids(FLAT, ind, 1))
+                                      Append(rest, <<ind, m, IF m = FLAT THEN nd.c[2] ELSE nd.c[1], 1, TRUE>>), past, rnl)
+               [] nd.k = "grp" -> Fits(c, smart, W, mn, left, col, rest \o kids(FLAT, ind, 1), past, rnl)
 
 -----------------------------------------------------------------------------
 VARIABLES cs, src, st, col, pos, used,
@@ -263,7 +276,7 @@ Step ==
               /\ (mm = BREAK /\ Cases[cs].c06 /\ ~Forced(cs, nd.c[1])) =>
                    ~Fits(cs, Cases[cs].smart, W, Min(col, ind),
                          Min(W - col, ind + R - col), col,
-                         Append(Rest, <<ind, FLAT, nd.c[1], 1>>))        \* C06.break
+                         Append(Rest, <<ind, FLAT, nd.c[1], 1>>), FALSE, Cases[cs].rnl)   \* C06.break
               /\ st' = Rest \o kids(mm, ind) /\ UNCHANGED <<col, pos>>
               \* (relaxed only) a group with a forced break on its flat path laid out flat
               /\ used' = IF mm = FLAT /\ Forced(cs, nd.c[1]) THEN used \cup {FlatOverForced(nd.c[1])} ELSE used
